@@ -2,6 +2,7 @@ package main
 
 import (
 	"fmt"
+	"strconv"
 	"strings"
 
 	"github.com/jcmoraisjr/haproxy-ingress/pkg/haproxy"
@@ -20,6 +21,13 @@ func init() {
 			c11align(c, c02parseFlags(a[1]), c02parseEPs(a[2]))
 		case len(a) == 4 && (a[0] == "fits" || a[0] == "noop"):
 			c11pair(c, a[0], c02parseFlags(a[1]), c02parseEPs(a[2]), c02parseEPs(a[3]))
+		case len(a) == 4 && a[0] == "hist":
+			n, _ := strconv.Atoi(a[2])
+			var steps [][]c02ep
+			for _, st := range strings.Split(a[3], "|") {
+				steps = append(steps, c02parseEPs(st))
+			}
+			c11hist(c, c02parseFlags(a[1]), n, steps)
 		}
 	}
 }
@@ -80,6 +88,51 @@ func c11pair(c *ctx, kind string, f c02flags, old, cur []c02ep) {
 	c.stat(kind, 1)
 }
 
+// c11hist: a history of re-notifications of ONE backend through the real Backends store (RemoveAll,
+// AcquireBackend, fresh endpoints as a converter adds them), config.Shrink(), the real dynamic updater
+// and config.Commit() - the sequence HAProxyUpdate runs. `steps[i]` are the real endpoints of sync i.
+// Output per step: updated flag, commands, resulting slots of the backend in the model store.
+func c11hist(c *ctx, f c02flags, shards int, steps [][]c02ep) {
+	out := func() (res string) {
+		defer func() {
+			if r := recover(); r != nil {
+				res = "PANIC"
+			}
+		}()
+		inst := haproxy.CreateInstance(&hvutil.Logger{}, haproxy.InstanceOptions{Metrics: types_helper.NewMetricsMock(), BackendShards: shards})
+		cfg := inst.Config()
+		var outs []string
+		for i, st := range steps {
+			if i > 0 {
+				cfg.Backends().RemoveAll([]string{"d_app_8080"})
+			}
+			b := cfg.Backends().AcquireBackend("d", "app", "8080")
+			c02fill(b, f, st)
+			cfg.Shrink()
+			sock := &c02sock{}
+			updated, _ := haproxy.VerifDynUpdate(inst, sock)
+			cmds := make([]string, len(sock.calls))
+			for j, cl := range sock.calls {
+				cmds[j] = c02canonCall(cl)
+			}
+			cs := "-"
+			if len(cmds) > 0 {
+				cs = strings.Join(cmds, ",")
+			}
+			final := cfg.Backends().Items()["d_app_8080"]
+			outs = append(outs, b2s(updated)+"/"+cs+"/"+c02fmtEPs(c02read(final)))
+			cfg.Commit()
+		}
+		return strings.Join(outs, ";")
+	}()
+	var sts []string
+	for _, st := range steps {
+		sts = append(sts, c02fmtEPs(st))
+	}
+	c.emit("C11", fmt.Sprintf("hist %s %d %s", f.String(), shards, strings.Join(sts, "|")), out)
+	c.stat("hist", 1)
+}
+
 // rebuild the real endpoints of a layout the way a converter does on a re-sync: fresh names
 func c11rebuild(f c02flags, naming int, old []c02ep) []c02ep {
 	b := hatypes.CreateBackends(0).AcquireBackend("d", "gen", "1")
@@ -132,6 +185,50 @@ func runC11(c *ctx) {
 		}
 	}
 	c.stat("align_exhaustive_grid", 1)
+	// histories: reload, spurious re-notifications, endpoint churn that fits
+	nh := 1500
+	if c.thorough() {
+		nh = 60000
+	}
+	// corpus: reload, no-op re-notification, then one endpoint more (must stay dynamic)
+	{
+		f := c02flags{dyn: true, same: true, minfree: 2, block: 1, iw: 1}
+		e := func(ip string) c02ep { return c02ep{"", ip, 8080, true, 1, "", "", "", 0} }
+		c11hist(c, f, 0, [][]c02ep{{e("10.0.0.1"), e("10.0.0.2")}, {e("10.0.0.1"), e("10.0.0.2")}, {e("10.0.0.1"), e("10.0.0.2"), e("10.0.0.3")}})
+		c11hist(c, f, 3, [][]c02ep{{e("10.0.0.1"), e("10.0.0.2")}, {e("10.0.0.1"), e("10.0.0.2")}, {e("10.0.0.1"), e("10.0.0.2"), e("10.0.0.3")}})
+	}
+	for i := 0; i < nh; i++ {
+		f := c02flags{dyn: true, same: true, minfree: r.Range(0, 4), block: r.Range(0, 5), iw: 1}
+		shards := gen.Pick(r, []int{0, 0, 1, 3})
+		ns := r.Range(2, 6)
+		var steps [][]c02ep
+		cur := []string{}
+		for k := 0; k < ns; k++ {
+			switch {
+			case k > 0 && r.Chance(2, 5):
+				// spurious re-notification: same endpoints
+			default:
+				n := r.Range(0, 6)
+				cur = cur[:0]
+				seen := map[string]bool{}
+				for j := 0; j < n; j++ {
+					t := gen.Pick(r, pool)
+					if !seen[t] {
+						seen[t] = true
+						cur = append(cur, t)
+					}
+				}
+			}
+			var st []c02ep
+			for _, t := range cur {
+				ipport := strings.Split(t, ":")
+				port, _ := strconv.Atoi(ipport[1])
+				st = append(st, c02ep{"", ipport[0], port, true, 1, "", "", "", 0})
+			}
+			steps = append(steps, st)
+		}
+		c11hist(c, f, shards, steps)
+	}
 	n := 3000
 	if c.thorough() {
 		n = 120000
